@@ -441,6 +441,10 @@ func (g *gen) next() []string {
 		return g.genAdminAppoints()
 	case r < 16 && g.w.n > 1:
 		return g.genCommitteeGate()
+	case r < 17:
+		return g.genFullList()
+	case r < 19:
+		return g.genNestedOwners()
 	case r < 28:
 		return g.genRegister()
 	case r < 36:
@@ -1291,5 +1295,142 @@ func (g *gen) genCommitteeGate() []string {
 		}
 	}
 	out = append(out, g.line(g.advance(), []string{g.w.cmt}, 0, 0, "setPrice", "1"), g.q(g.t, "roots"), g.q(g.t, "getPrice"))
+	return out
+}
+
+// genFullList: the boundary of 16 records. One (name, type) — TXT mostly, also A — is emptied and filled to the full 16
+// values; a 17th addRecord must be refused; setRecord is probed at the ids 0, 14, 15 (the last valid one), 16 and 255,
+// each with a fresh valid value and with the value the record already has; the read paths are queried; then the type
+// is deleted, partly refilled and probed again.
+func (g *gen) genFullList() []string {
+	cands := g.userOwned(2)
+	if len(cands) == 0 {
+		return g.genRegister()
+	}
+	n := hx.Pick(g.rng, cands)
+	if g.p(25) {
+		n = hx.Pick(g.rng, g.labs) + "." + n // a sub-name kept under the registered name
+	}
+	owner := hx.Hex(g.tokenState(n, g.t+1).owner)
+	typ, ip := typTXT, 0
+	if g.p(30) {
+		typ, ip = typA, 1
+	}
+	g.nTXT++
+	tag := g.nTXT
+	val := func(i int, gen int) string {
+		if typ == typA {
+			return fmt.Sprintf("%d.%d.%d.%d", 1+tag%9, 1+gen, 3, 1+i) // public unicast, last octet 1..254
+		}
+		return fmt.Sprintf("f%d.%d.%d", tag, gen, i)
+	}
+	ts := fmt.Sprint(typ)
+	var out []string
+	op := func(method string, args ...string) {
+		out = append(out, g.line(g.advance(), []string{owner}, ip, 0, method, append([]string{hexs(n)}, args...)...))
+	}
+	reads := func() {
+		out = append(out, g.q(g.t, "getRecords", hexs(n), ts), g.q(g.t, "resolve", hexs(n), ts))
+		if g.p(50) {
+			out = append(out, g.q(g.t, "getAllRecords", hexs(n)))
+		}
+	}
+	op("deleteRecords", ts)
+	for i := 0; i < 16; i++ {
+		op("addRecord", ts, hexs(val(i, 0)))
+	}
+	op("addRecord", ts, hexs(val(16, 0))) // the 17th: refused
+	reads()
+	cur := map[int]string{}
+	for i := 0; i < 16; i++ {
+		cur[i] = val(i, 0)
+	}
+	ids := []int{0, 14, 15, 16, 255}
+	g.rng.Shuffle(len(ids), func(i, j int) { ids[i], ids[j] = ids[j], ids[i] })
+	for _, id := range ids {
+		fresh := val(id%20, 1)
+		op("setRecord", ts, fmt.Sprint(id), hexs(fresh)) // a fresh valid value
+		if id < 16 {
+			cur[id] = fresh
+		}
+		same := fresh
+		if id >= 16 {
+			same = cur[15]
+		}
+		op("setRecord", ts, fmt.Sprint(id), hexs(same)) // the identical value
+	}
+	op("setRecord", ts, "15", hexs(cur[14])) // the value of its neighbour: refused
+	reads()
+	op("deleteRecords", ts)
+	k := 2 + g.rng.IntN(3)
+	for i := 0; i < k; i++ {
+		op("addRecord", ts, hexs(val(i, 2)))
+	}
+	op("setRecord", ts, fmt.Sprint(k-1), hexs(val(k-1, 3)))
+	op("setRecord", ts, fmt.Sprint(k), hexs(val(k, 3))) // one past the end: refused
+	op("setRecord", ts, "15", hexs(val(15, 3)))         // no such id now
+	reads()
+	return out
+}
+
+// genNestedOwners: names of four levels whose enclosing names have different owners. b = l.<tld> belongs to P,
+// a.b is registered for X (P and X sign), then P alone — the owner of the second-level name, not of the directly
+// enclosing one — tries to register evil.a.b (refused), as do P together with the owner-to-be and a stranger; X (owner
+// of a.b) with the owner-to-be succeeds; one level deeper the same with the owner of evil.a.b.
+func (g *gen) genNestedOwners() []string {
+	var l2 []string
+	for _, n := range g.userOwned(2) {
+		if len(labels(n)) == 2 {
+			l2 = append(l2, n)
+		}
+	}
+	if len(l2) == 0 {
+		return g.genRegister()
+	}
+	b := hx.Pick(g.rng, l2)
+	p := hx.Hex(g.w.prev.names[b].owner)
+	var others []string
+	for _, u := range g.w.uhash {
+		if u != p {
+			others = append(others, u)
+		}
+	}
+	g.rng.Shuffle(len(others), func(i, j int) { others[i], others[j] = others[j], others[i] })
+	x, y, z := others[0], others[1], others[2]
+	g.nTXT++
+	a := fmt.Sprintf("o%d.%s", g.nTXT%9, b)
+	reg := func(hs []string, name, owner string) string {
+		return g.line(g.advance(), hs, 0, 0, "register", hexs(name), owner, hexs("e@x"), "1", "2", "1000", "4")
+	}
+	var out []string
+	if ns, ok := g.w.prev.names[a]; ok && liveAt(g.w.prev, a, new(big.Int).SetUint64(g.t+1)) && len(ns.owner) == 20 {
+		x = hx.Hex(ns.owner)
+		if x == p {
+			return g.genRegister()
+		}
+		if y == x {
+			y = z
+		}
+	} else {
+		out = append(out, reg([]string{p, x}, a, x))
+	}
+	c := "evil." + a
+	out = append(out,
+		reg([]string{p}, c, p),    // the owner of the second-level name alone, for itself
+		reg([]string{p, y}, c, y), // … together with the owner-to-be
+		reg([]string{y}, c, y),    // a stranger for itself
+		g.q(g.t, "isAvailable", hexs(c)), g.q(g.t, "ownerOf", hexs(c)),
+		reg([]string{x, y}, c, y), // the owner of the directly enclosing name with the owner-to-be: accepted
+		g.q(g.t, "ownerOf", hexs(c)))
+	if g.p(60) {
+		d := "deep." + c
+		w := others[3%len(others)]
+		out = append(out,
+			reg([]string{p, w}, d, w), // second-level owner
+			reg([]string{x, w}, d, w), // third-level owner: not the directly enclosing name either
+			g.q(g.t, "ownerOf", hexs(d)),
+			reg([]string{y, w}, d, w), // the owner of evil.a.b: accepted
+			g.q(g.t, "ownerOf", hexs(d)))
+	}
 	return out
 }
